@@ -403,9 +403,72 @@ def run_list_history(ctx, ops):
 
 
 # --------------------------------------------------------------------------
+def namespaced_family(ctx):
+    """selectors with namespace prefixes: (1) a stand-alone Selector with its own dictionary serialises to a text that
+    re-resolves to the same items and specificity, wherever the prefix is used (also only inside :not());
+    (2) a member of a list attached to a sheet that is assigned / appended as text resolves against the sheet's
+    namespaces exactly as the same text set on the rule does, and an equal member moves instead of being doubled.
+    Search only."""
+    import cssutils
+    import xml.dom
+    from harness import impl
+    D = {'p': 'http://p', 'q': 'http://q'}
+    for text in ['p|a', 'q|b:not(p|a)', ':not(p|a)', 'b:not(p|*)', 'x[p|att]', 'q|b:not([p|att])', 'p|a > q|b', '*|a:not(q|c).k', 'a:not(p|b)::after']:
+        impl.reset()
+        case = {'family': 'namespaced-detached', 'text': text, 'namespaces': D}
+        ctx.case(('ns-detached', text))
+        try:
+            s1 = cssutils.css.Selector((text, dict(D)))
+            s2 = cssutils.css.Selector((s1.selectorText, dict(D)))
+            a = ([(i.type, i.value) for i in s1.seq], tuple(s1.specificity))
+            b = ([(i.type, i.value) for i in s2.seq], tuple(s2.specificity))
+        except xml.dom.DOMException as e:
+            ctx.violation('roundtrip', case, 'rejected: %s' % e, KNOWN_PRED)
+            continue
+        except Exception as e:  # noqa
+            ctx.violation('roundtrip', case, '%s: %s' % (type(e).__name__, e), KNOWN_PRED)
+            continue
+        if a != b:
+            ctx.violation('roundtrip', case, 'selectorText %r re-resolves to %r, the selector holds %r' % (s1.selectorText, b, a), KNOWN_PRED)
+    SHEET = '@namespace "http://d"; @namespace p "http://p"; a, p|b, c {left:0} z {top:0}'
+    for member in ['b.k', 'p|c', 'x:not(p|y)', '*|w', '|v', 'a']:
+        for how in ('setitem0', 'setitem1', 'append'):
+            impl.reset()
+            case = {'family': 'namespaced-attached', 'sheet': SHEET, 'member': member, 'how': how}
+            ctx.case(('ns-attached', member, how))
+            try:
+                sheet = cssutils.parseString(SHEET)
+                sl = sheet.cssRules[2].selectorList
+                ref_rule = sheet.cssRules[3]
+                ref_rule.selectorText = member
+                want = [(i.type, i.value) for i in ref_rule.selectorList[0].seq]
+                if how == 'append':
+                    sl.appendSelector(member)
+                    got_sel = sl[-1]
+                else:
+                    idx = int(how[-1])
+                    sl[idx] = member
+                    got_sel = sl[idx]
+                got = [(i.type, i.value) for i in got_sel.seq]
+                texts_ = [x.selectorText for x in sl]
+                again = cssutils.parseString(sheet.cssText)
+                back = [[(i.type, i.value) for i in x.seq] for x in again.cssRules[2].selectorList]
+                now = [[(i.type, i.value) for i in x.seq] for x in sl]
+            except xml.dom.DOMException as e:
+                ctx.violation('list-set', case, 'rejected although the same text is accepted as the rule\'s selectorText: %s' % e, KNOWN_PRED)
+                continue
+            except Exception as e:  # noqa
+                ctx.violation('list-set', case, '%s: %s' % (type(e).__name__, e), KNOWN_PRED)
+                continue
+            if got != want or (how == 'append' and len(set(texts_)) != len(texts_)) or back != now:
+                ctx.violation('list-set', case, 'member holds %r, the same text on a rule of this sheet gives %r; list texts %r; read back %r' % (
+                    got, want, texts_, back), KNOWN_PRED)
+
+
 def run(ctx):
     rng = ctx.rng
     quick = ctx.tier == 'quick'
+    namespaced_family(ctx)
     n_ast, n_mut, n_soup, n_hist = (2500, 3000, 2000, 400) if quick else (100000, 160000, 120000, 20000)
     ctx.cov['rule'] = ('selectors from the AST generator (1-4 compounds; type/universal with none, *| and | prefix; id, class, attribute '
                        'x 7 forms, pseudo-class, functional pseudo with an+b / ident / string arguments, :not(simple), one/two-colon and '
